@@ -135,9 +135,11 @@ def target(name, a):
     raise KeyError(name)
 
 
-def erf_case(ctx, PL, rng, name, tier):
+def erf_case(ctx, PL, rng, name, tier, shape=None):
     par = G.REG[name][2]
     args = G.sample_args(rng, name, True, tier)
+    if shape:
+        args.update(shape)          # shape parameters far out (sharp targets): legal, rarely tried
     if tier != "quick" and rng.random() < 0.3:
         d = int(rng.integers(60, 151)); d += (par - d) % 2
         args["degree"] = d
@@ -218,6 +220,14 @@ def run(tier, seed):
         if G.REG[name][1] == "erf":
             for _ in range(10 if q else 60):
                 erf_case(ctx, PL, rng, name, tier)
+    # sharp shape parameters (softplus / Gibbs / sign far steeper than the usual examples): the documented target is still
+    # the closed form, evaluated here with logaddexp-free plain formulas that do not overflow in this range
+    for name, shape in (("softplus", {"kappa": 40.0, "delta": 0.1}), ("softplus", {"kappa": 60.0, "delta": 0.2}), ("softplus", {"kappa": 100.0, "delta": 0.1}),
+                        ("softplus", {"kappa": 45.0, "delta": 0.25}), ("gibbs", {"beta": 25.0}), ("sign", {"delta": 30.0}), ("threshold", {"delta": 30.0}),
+                        ("relu", {"delta": 0.01})):
+        for _ in range(2 if q else 8):
+            ctx.count("sharp-shape:" + name)
+            erf_case(ctx, PL, rng, name, tier, shape=shape)
     ctx.assumptions = ["erf-family clause: the documented targets are recomputed with scipy.special.erf / numpy (independent of pyqsp) and the least-squares fit "
                        "through the discrete Chebyshev transform on the first-kind nodes (explored, not proved)"]
     ctx.extra["argument_types"] = dict(G.ARG_TYPES)
